@@ -55,7 +55,8 @@ def step (os : OState) (line : String) : OState × String :=
     (os, m ++ "\t" ++ v)
   | "rs" :: _ =>
     -- C15 dynamic scenarios: the op itself only has to complete; the race detector's reports arrive as `ac race` lines
-    (os, "completed\t" ++ (if obs = "completed" then "ok" else if obs.startsWith "HANG" then "bad:operation-does-not-complete" else "bad:" ++ obs))
+    (os, "completed\t" ++ (if obs = "completed" then "ok" else if obs.startsWith "HANG" then "bad:operation-does-not-complete"
+        else if obs.startsWith "MISPAIRED" then "bad:metadata-mispaired-with-body" else "bad:" ++ obs))
   | "ls" :: _ =>
     -- C14: the theorem says every schedule completes; the model observation is the constant "completed"
     (os, "completed\t" ++ (if obs = "completed" then "ok" else if obs.startsWith "HANG" then "bad:operation-does-not-complete" else "bad:" ++ obs))
